@@ -113,10 +113,8 @@ TAdd ==
   /\ Ev("Add") /\ Step
   /\ \E h \in hold :
        /\ h.s = E.start /\ h.n = E.n /\ h.st = "try"
-       /\ \/ /\ pc = "run" /\ SubmitL(h, LeavesOf(E.leaves))
-             /\ CASE E.code = "OK" -> (hold' = hold \ {h} /\ pc' = "run")
-                  [] E.code = "ResourceExhausted" -> (\E g \in hold' : g.s = h.s /\ g.st = "wait")
-                  [] OTHER -> pc' = "unwind"
+       /\ \/ /\ pc = "run"
+             /\ SubmitL(h, LeavesOf(E.leaves), CASE E.code = "OK" -> "ok" [] E.code = "ResourceExhausted" -> "quota" [] OTHER -> "fatal")
           \/ /\ pc = "unwind" /\ E.code = "OK" /\ StragglerSubmitL(h, LeavesOf(E.leaves))
           \/ /\ pc = "unwind" /\ E.code # "OK" /\ hold' = hold \ {h}
              \* a genuine failure seen while unwinding: whatever was suspected, this may have ended the pass
@@ -128,7 +126,11 @@ TAdd ==
 TStray ==
   /\ (Ev("GetRoot") \/ Ev("STH") \/ Ev("Cons")) /\ Step
   /\ pc = "unwind" /\ why \in {"cancel", "revoke"}
-  /\ UNCHANGED vars
+  /\ \/ UNCHANGED vars
+     \* one-shot: an STH that shows nothing to do ends the pass before the cancellation is noticed: Run returns nil
+     \/ /\ Ev("STH") /\ E.code = "OK" /\ E.size <= pos /\ ~cfg.cont /\ why = "cancel"
+        /\ pc' = "passDone" /\ why' = "" /\ sth' = E.size
+        /\ UNCHANGED <<cfg, dest, pipe, envv, faults, restarts, verified, flags, pass, calls, hist, result, pos, root, proved, gen>>
 
 TIntegrate ==
   /\ Ev("Integrate") /\ Step
@@ -155,12 +157,12 @@ TReturn ==
 
 \* defect: the pass ends although a batch only waits for its quota retry
 AbortOnQuota ==
-  /\ pc = "run" /\ \E h \in hold : h.st = "wait"
+  /\ pc = "run" /\ why = "" /\ \E h \in hold : h.st = "wait"
   /\ pc' = "unwind" /\ why' = "err" /\ flags' = flags \cup {"quotaSuspect"}
   /\ UNCHANGED <<cfg, dest, pipe, envv, restarts, faults, pass, calls, hist, result, pos, root, sth, proved, gen, verified, l>>
 
 Silent == /\ UNCHANGED l
-          /\ \/ AssignRange \/ PassDone \/ AwaitDone
+          /\ \/ AssignRange \/ PassDone \/ AwaitDone \/ DoFail
              \/ (Verify /\ root = 0)
              \/ (NextPass /\ pc' = "start")
              \/ (EndUnwindF(Keep) /\ pc' # "returned")
